@@ -107,6 +107,9 @@ func plan(tier string, seed int64) []driver.Case {
 				P: map[string]string{"kind": "conc", "entry": e.Name, "scripts": key(t), "yield": fmt.Sprint(rng.Intn(3)), "concurrent": "1"}})
 		}
 	}
+	for _, pl := range parkPlans {
+		cases = append(cases, driver.Case{ID: "park/" + pl.name, P: map[string]string{"kind": "park", "plan": pl.name}})
+	}
 	return cases
 }
 
@@ -514,8 +517,106 @@ func canon(f string) string {
 	return f
 }
 
+// ---------------------------------------------------------------- park plans: deterministic unlock-then-emit interleavings
+
+type parkPlan struct {
+	name   string
+	entry  string
+	point  string
+	before []event // injected from the harness goroutine, to completion, before the parked emission
+	parked event   // injected from a second goroutine; it parks at `point` (state taken, not yet emitted)
+	during []event // injected from the harness goroutine while the other one is parked
+}
+
+func n(s, v int) event { return event{s, src.Notif{K: rec.Next, V: v}} }
+func cpl(s int) event  { return event{s, src.Notif{K: rec.Complete}} }
+
+var parkPlans = []parkPlan{
+	{"zip-completion-overtakes-popped-tuple", "Zip2", "zip.popped", []event{n(0, 10)}, n(1, 20), []event{cpl(0)}},
+	{"buffer-completion-overtakes-taken-buffer", "BufferWhen", "buffer.flush.unlocked", []event{n(0, 10)}, n(1, 20), []event{cpl(0)}},
+	{"window-boundary-overtakes-routed-value", "WindowWhen+MergeAll", "window.next.read", nil, n(0, 10), []event{n(1, 20), n(0, 11)}},
+	// SampleWhen: the tick goroutine took value 10 and is parked; the source emits 11 and completes meanwhile
+	{"sample-completion-overtakes-taken-sample", "SampleWhen", "sample.tick.unlocked", []event{n(0, 10)}, n(1, 20), []event{cpl(0)}},
+}
+
+func runPark(c driver.Case) driver.Result {
+	var pl parkPlan
+	for _, p := range parkPlans {
+		if p.name == c.Get("plan") {
+			pl = p
+		}
+	}
+	e := catalog.Get(pl.entry)
+	res := driver.Result{Verdict: driver.Held}
+	h := setup(e)
+	defer h.cleanup()
+	for _, ev := range pl.before {
+		h.srcs[ev.Src].Send(ev.N)
+	}
+	arrived, release := sched.Park(pl.point, 1)
+	defer sched.ClearParks()
+	parkedDone := make(chan struct{})
+	go func() {
+		defer close(parkedDone)
+		defer func() { recover() }()
+		h.srcs[pl.parked.Src].Send(pl.parked.N)
+	}()
+	select {
+	case <-arrived:
+	case <-time.After(2 * time.Second):
+		release()
+		<-parkedDone
+		return driver.Result{Verdict: driver.Inconclusive, Key: "park-point-not-reached", Msg: pl.name + ": hook point " + pl.point + " was not reached"}
+	}
+	// the other goroutine has taken its state under the operator's lock and released the lock; it has not emitted yet
+	duringDone := make(chan struct{})
+	go func() {
+		defer close(duringDone)
+		defer func() { recover() }()
+		for _, ev := range pl.during {
+			if h.srcs[ev.Src].IsSubscribed() {
+				h.srcs[ev.Src].Send(ev.N)
+			}
+		}
+	}()
+	select {
+	case <-duringDone:
+	case <-time.After(500 * time.Millisecond): // blocked behind the parked goroutine (the operator holds a lock there): release first
+	}
+	release()
+	<-parkedDone
+	select {
+	case <-duringDone:
+	case <-time.After(5 * time.Second):
+		return driver.Result{Verdict: driver.Inconclusive, Key: "park-plan-stuck", Dirty: true}
+	}
+	quiesce.Settle(time.Second)
+	per := make([][]cev, e.NSrc)
+	for i, s := range h.srcs {
+		for _, em := range s.Emissions() {
+			per[i] = append(per[i], cev{event{i, em.N}, em.Begin, em.End})
+		}
+	}
+	obs := h.rec.Events()
+	res.Events = int64(len(obs)) + 1
+	res.Nontrivial = true
+	res.Sig = "park/" + pl.name + "→" + h.rec.TraceString()
+	res.Sample = map[string]any{"plan": pl.name, "operator": pl.entry, "parked_at": pl.point, "observed": h.rec.TraceString()}
+	if gp := h.rec.GrammarProblems(); len(gp) > 0 {
+		res.Verdict, res.Key = driver.Violated, "C05/"+canon(e.Family)+"/delivery-after-terminal-under-concurrency"
+		res.Msg = fmt.Sprintf("%s (%s): %s", pl.entry, pl.name, strings.Join(gp, "; "))
+	} else if !explain(e, per, obs) {
+		res.Verdict, res.Key = driver.Violated, "C05/"+canon(e.Family)+"/no-arrival-order-explains-concurrent-output/"+classify(per, obs)
+		res.Msg = fmt.Sprintf("%s, deterministic schedule '%s' (one producer parked at %s after taking its state, the other producer runs %v meanwhile): observed [%s] is not the definition's output for any arrival order", pl.entry, pl.name, pl.point, pl.during, h.rec.TraceString())
+	}
+	return res
+}
+
 func runCase(c driver.Case) driver.Result {
 	rec.ResetHooks()
+	if c.Get("kind") == "park" {
+		return runPark(c)
+	}
 	if c.Get("kind") == "conc" {
 		return runConc(c)
 	}
